@@ -59,6 +59,27 @@ def events(src, n):
                 for j in range(i, m):
                     cells.append([i, j, sorted(ab.enc(v) for v in (X[i, j] if (i, j) in X else set()))])
         yield {"op": "cyk_matrix", "cfg": AC, "w": ab.word(w), "cells": cells, "exc": exc, "src": dict(src, n=n)}
+    # a letter of the alphabet that NO rule produces (an unused terminal), next to sub-words that are derivable: the
+    # cells of the other sub-words must still be exact
+    import copy
+    u = next(c for c in "zyxwvu" if c not in G.Sigma and c not in {str(v) for v in C.V})
+    C2 = copy.deepcopy(C)
+    C2.Sigma = set(C2.Sigma) | {u}
+    if not C2.is_valid() or not C2.is_chomsky():
+        return
+    AC2 = ab.cfg(C2)
+    long_ws = [w for w in ws if len(w) >= 2] or ws
+    for w0 in rng.sample(long_ws, min(len(long_ws), 2)):
+        k = rng.randrange(3)
+        w = w0 + u if k == 0 else u + w0 if k == 1 else w0 + u + w0[:2]
+        X, exc = guarded(lambda: cfg_cyk_matrix(C2, w))
+        cells = []
+        if exc == "none":
+            m = len(w)
+            for i in range(m):
+                for j in range(i, m):
+                    cells.append([i, j, sorted(ab.enc(v) for v in (X[i, j] if (i, j) in X else set()))])
+        yield {"op": "cyk_matrix", "cfg": AC2, "w": ab.word(w), "cells": cells, "exc": exc, "src": dict(src, n=n, unused=u)}
 
 
 def unit_order_events(src, n, rng, orders=4, only=None):
@@ -179,6 +200,7 @@ def redrive(src):
     if src.pop("mut", None):
         yield from history_events(src, n)
         return
+    src.pop("unused", None)
     order = src.pop("unit_order", None)
     if order is not None:
         yield from unit_order_events(src, n, None, only=order)
